@@ -25,6 +25,9 @@ import time
 from fractions import Fraction
 from pathlib import Path
 
+if hasattr(sys, "set_int_max_str_digits"):
+    sys.set_int_max_str_digits(0)   # exact counts can have thousands of digits
+
 VERIF = Path(__file__).resolve().parent.parent
 COQ = VERIF / "coq"
 # VERIF_SCRATCH redirects everything a run writes (cases, evidence, replays) - used when a check is
